@@ -143,7 +143,14 @@ func (x *Exec) refBound(arr *Term, bound *Term) {
 		return
 	}
 	x.useAxioms("alloc")
-	x.facts = append(x.facts, Forall(idx, Le(x.ctx.App("allocId", IntSort, cur), bound), []*Term{cur}))
+	body := Le(x.ctx.App("allocId", IntSort, cur), bound)
+	if idx[0].Sort.Kind == SRef {
+		// only objects that existed at that point: the row of an object allocated later is not part
+		// of this heap (a modular callee may return a fresh object whose fields the caller reads
+		// from its own, unchanged, arrays)
+		body = Implies(Le(x.ctx.App("allocId", IntSort, idx[0]), bound), body)
+	}
+	x.facts = append(x.facts, Forall(idx, body, []*Term{cur}))
 }
 
 // liftSort lifts sort s over the array indices in path.
@@ -415,18 +422,22 @@ func (x *Exec) mapSet(st *State, t types.Type, m *Term, k, v *Value) {
 	had := x.mapHas(st, t, m, k)
 	pk := "MP:" + mi.key
 	parr := x.heapArr(st, pk, ArraySort(RefSort, curried(mi.kLeaves, BoolSort)))
-	st.heap[pk] = storeN(parr, append([]*Term{m}, ks...), True)
+	// an assignment to an entry of a nil map panics (a separate obligation): nothing is written at
+	// the null reference, so that execution continued under `nosafety` does not invent a write
+	isNil := Eq(m, x.null())
+	idx := append([]*Term{m}, ks...)
+	st.heap[pk] = storeN(parr, idx, Ite(isNil, selectN(parr, idx), True))
 	x.noteWrite(pk, m)
 	vs := leafTerms(v)
 	for i, l := range leavesOf(mi.vT) {
 		key := "MV:" + mi.key + "/" + l.Path
 		arr := x.heapArr(st, key, ArraySort(RefSort, curried(mi.kLeaves, l.Sort)))
-		st.heap[key] = storeN(arr, append([]*Term{m}, ks...), vs[i])
+		st.heap[key] = storeN(arr, idx, Ite(isNil, selectN(arr, idx), vs[i]))
 		x.noteWrite(key, m)
 	}
 	lk := "ML:" + mi.key
 	larr := x.heapArr(st, lk, ArraySort(RefSort, IntSort))
-	st.heap[lk] = Store(larr, m, Ite(had, Select(larr, m), Add(Select(larr, m), IntLit(1))))
+	st.heap[lk] = Store(larr, m, Ite(Or(had, isNil), Select(larr, m), Add(Select(larr, m), IntLit(1))))
 	x.noteWrite(lk, m)
 }
 
